@@ -163,6 +163,68 @@ def vc_apply(ctx):
                   'the value inserted is not (dot.actor, dot.counter): %s, %s' % ((fmt(bad[0]), fmt(bad[1])) if bad else ('', '')), line=line, details=det)
 
 
+def uncovered_scan_errors(facts, cb, mapping):
+    """A predicate closure over our (actor, counter) entries keeps exactly the entries the argument clock (parameter 2 of the
+    enclosing function) does not cover: present there with a smaller counter -> keep, equal or larger -> drop, absent -> keep.
+    -> (errors, details)."""
+    hit = []
+
+    def S(t, mapping=mapping):
+        return versionless(subst(t, mapping))
+
+    # NB: S substitutes the closure's own parameters; it must be applied exactly once (the function's `other` is
+    # `param 2` too, like the closure's key)
+    def is_ours(t):       # (already substituted) the stored counter of the walked entry
+        return t[0] == 'field' and t[2] == '1' and t[1][0] == 'item'
+
+    def their(t):         # (already substituted) other's counter for the walked actor
+        if t[0] == 'field' and t[2] == 'Some.0':
+            t = t[1]
+        if is_call(t, 'get') and len(t[2]) == 2:
+            pp = param_path(t[2][0])
+            k = versionless(t[2][1])
+            if pp and pp[0] == 2 and k[0] == 'field' and k[2] == '0' and k[1][0] == 'item':
+                return 'stored' if pp[1][-1:] == ('dots',) else 'get'
+        return None
+
+    def classify(a, b, t):
+        a, b = S(a), S(b)
+        for x, y, orient in ((a, b, 'fwd'), (b, a, 'rev')):
+            if their(x) and is_ours(y):
+                hit.append(their(x))
+                return ('cmp', orient)      # ord(their counter, our counter)
+        return None
+
+    def atom(t):
+        ts = S(t)
+        if ts[0] == 'discr' and their(('field', ts[1], 'Some.0')) == 'stored':
+            return ('map', 'present', {True: 1, False: 0})
+        if is_call(ts, ('is_some', 'is_none')) and ts[2] and their(('field', ts[2][0], 'Some.0')) == 'stored':
+            return 'present' if call_name(ts) == 'is_some' else ('not', 'present')
+        return None
+    res = {}
+    for present in (True, False):
+        for o in TOTAL:
+            v = closure_value(facts, cb, classify=classify, bool_atom=atom, assumption={'present': present, 'cmp': o})
+            keep = (v is True) or (isinstance(v, tuple) and v[0] == 'optsome')
+            drop = (v is False) or v == ('optnone',)
+            res[(present, o)] = 'keep' if keep else ('drop' if drop else '?')
+    det = {'(argument lists the actor, ord(their counter, our counter)) -> entry': {str(k): v for k, v in res.items()}}
+    stored = 'stored' in hit
+    errs = []
+    if not hit:
+        errs.append('the scan over our entries does not compare the argument clock\'s counter for the actor with ours')
+    else:
+        if stored and any(res[(False, o)] != 'keep' for o in TOTAL):
+            errs.append('an entry of an actor the argument clock does not list is removed')
+        for o in (GT, EQ):
+            if res[(True, o)] != 'drop':
+                errs.append('an entry not newer than the argument clock (their counter %s ours) is kept' % {'Gt': '>', 'Eq': '=='}[o])
+        if res[(True, LT)] != 'keep':
+            errs.append('an entry strictly newer than the argument clock is removed')
+    return errs, det
+
+
 @rule('VC-RESET', {
     'C10': 'reset_remove(c) keeps exactly the entries strictly newer than c',
     'C18': 'per-actor dot subtraction is the building block of every reset_remove',
@@ -188,61 +250,7 @@ def vc_reset(ctx):
                     continue
                 cb = facts.cb(clo[1])
                 ctx.analysed.add(cb.key)
-                hit = []
-
-                def S(t, mapping=mapping):
-                    return versionless(subst(t, mapping))
-
-                # NB: S substitutes the closure's own parameters; it must be applied exactly once (the function's `other` is
-                # `param 2` too, like the closure's key)
-                def is_ours(t):       # (already substituted) the stored counter of the walked entry
-                    return t[0] == 'field' and t[2] == '1' and t[1][0] == 'item'
-
-                def their(t):         # (already substituted) other's counter for the walked actor
-                    if t[0] == 'field' and t[2] == 'Some.0':
-                        t = t[1]
-                    if is_call(t, 'get') and len(t[2]) == 2:
-                        pp = param_path(t[2][0])
-                        k = versionless(t[2][1])
-                        if pp and pp[0] == 2 and k[0] == 'field' and k[2] == '0' and k[1][0] == 'item':
-                            return 'stored' if pp[1][-1:] == ('dots',) else 'get'
-                    return None
-
-                def classify(a, b, t):
-                    a, b = S(a), S(b)
-                    for x, y, orient in ((a, b, 'fwd'), (b, a, 'rev')):
-                        if their(x) and is_ours(y):
-                            hit.append(their(x))
-                            return ('cmp', orient)      # ord(their counter, our counter)
-                    return None
-
-                def atom(t):
-                    ts = S(t)
-                    if ts[0] == 'discr' and their(('field', ts[1], 'Some.0')) == 'stored':
-                        return ('map', 'present', {True: 1, False: 0})
-                    if is_call(ts, ('is_some', 'is_none')) and ts[2] and their(('field', ts[2][0], 'Some.0')) == 'stored':
-                        return 'present' if call_name(ts) == 'is_some' else ('not', 'present')
-                    return None
-                res = {}
-                for present in (True, False):
-                    for o in TOTAL:
-                        v = closure_value(facts, cb, classify=classify, bool_atom=atom, assumption={'present': present, 'cmp': o})
-                        keep = (v is True) or (isinstance(v, tuple) and v[0] == 'optsome')
-                        drop = (v is False) or v == ('optnone',)
-                        res[(present, o)] = 'keep' if keep else ('drop' if drop else '?')
-                det = {'(argument lists the actor, ord(their counter, our counter)) -> entry': {str(k): v for k, v in res.items()}}
-                stored = 'stored' in hit
-                errs = []
-                if not hit:
-                    errs.append('the scan over our entries does not compare the argument clock\'s counter for the actor with ours')
-                else:
-                    if stored and any(res[(False, o)] != 'keep' for o in TOTAL):
-                        errs.append('an entry of an actor the argument clock does not list is removed')
-                    for o in (GT, EQ):
-                        if res[(True, o)] != 'drop':
-                            errs.append('an entry not newer than the argument clock (their counter %s ours) is kept' % {'Gt': '>', 'Eq': '=='}[o])
-                    if res[(True, LT)] != 'keep':
-                        errs.append('an entry strictly newer than the argument clock is removed')
+                errs, det = uncovered_scan_errors(facts, cb, mapping)
                 whole = not (set(iter_adaptors(item[1] if item and item[0] == 'item' else ('top',))) & LOSSY_ADAPTORS)
                 if not whole:
                     errs.append('the scan does not range over all of our entries')
@@ -366,7 +374,7 @@ def vc_intersect(ctx):
             if cg is not None:
                 k = versionless(cg[1])
                 v = versionless(y)
-                if k[0] == 'field' and v[0] == 'field' and k[1] == v[1] and {k[2], v[2]} == {'0', '1'}:
+                if k[0] == 'field' and v[0] == 'field' and k[1] == v[1] and (k[2], v[2]) in (('0', '1'), ('actor', 'counter')):
                     found.append({'item': k[1], 'clock': versionless(cg[0]), 'k': k, 'v': v})
                     return ('eq', orient)
         return None
@@ -421,6 +429,23 @@ def vc_without(ctx):
     it = interp(facts, body)
     e = cexpr(it.ret) if it.ret[0] != 'phi' else None
     ok = e is not None and e == ('minus', ('leaf', ('param', 1)), ('leaf', ('param', 2)))
+    if not ok:
+        # only the surviving entries are copied: a filter over all of self.dots keeping exactly what base does not cover
+        r = drop_lv(it.ret)
+        dv = drop_lv(dict(r[3]).get('dots')) if r[0] == 'agg' and r[1] == VCLOCK else None
+        if dv is not None and is_call(dv, 'collect') and dv[2]:
+            src = dv[2][0]
+            base, kind, clo = iter_source(src)
+            flt = [st for st in subterms(drop_lv(src)) if is_call(st, 'filter') and len(st[2]) == 2 and st[2][1][0] == 'closure']
+            if param_path(base) == (1, ('dots',)) and len(flt) == 1 and not (set(iter_adaptors(src)) & (LOSSY_ADAPTORS - {'filter'})):
+                for cl_, m_ in closure_bindings(flt[0]):
+                    cb_ = facts.cb(cl_[1])
+                    errs_, det_ = uncovered_scan_errors(facts, cb_, m_)
+                    # what is copied is the entry itself
+                    maps_ok = all(versionless(subst(interp(facts, facts.cb(c2[1])).ret, {('param', 2): ('param', 2)})) in
+                                  (('tuple', (('field', ('param', 2), '0'), ('field', ('param', 2), '1'))), ('param', 2))
+                                  for n2, c2 in clo if n2 == 'map' and c2 and c2[0] == 'closure')
+                    ok = not errs_ and maps_ok
     ctx.check(ok, 'clone_without', body, 'returns self − base (copy, then reset_remove) on every path',
               'clone_without does not return a copy of self reduced by reset_remove(base) on every path (returns %s)' % fmt(it.ret, 4))
 
